@@ -738,7 +738,7 @@ def bounded(tier, seed):
         for i in range(n):
             s = seed * 100003 + i
             try:
-                pr = Gen(s, {"trajectory": 0.4, "undefined": 0.3, "hierarchy": 0.5}).problem()
+                pr = Gen(s, {"trajectory": 0.4, "trajectory_conj": 0.5, "undefined": 0.3, "hierarchy": 0.5}).problem()
                 check(pr, {"source": "rtc.gen", "seed": s}, failures, stats)
                 nprob += 1
             except Exception:  # noqa
@@ -780,7 +780,7 @@ def replay_file(data):
         pr = dict(corpus()).get(src)
     elif src == "rtc.gen":
         from rtc.gen import Gen
-        pr = Gen(c["seed"], {"trajectory": 0.4, "undefined": 0.3, "hierarchy": 0.5}).problem()
+        pr = Gen(c["seed"], {"trajectory": 0.4, "trajectory_conj": 0.5, "undefined": 0.3, "hierarchy": 0.5}).problem()
     elif src == "rtc.tgen":
         from rtc.tgen import TGen
         pr = TGen(c["seed"]).problem()
